@@ -12,7 +12,7 @@ with contextlib.redirect_stdout(io.StringIO()):
     from wannierberri.system.system_R import System_R
 
 PROPERTY = "C20"
-FUNCTIONS = ["System_R.symmetrize / symmetrize2 / reorder / set_pointgroup", "SymWann.__init__/symmetrize/find_irreducible_Rab/average_XX_block/_rotate_XX_L_backwards/get_atom_R_map",
+FUNCTIONS = ["System_R.symmetrize2(use_symmetries_index=subgroup)", "System_R.symmetrize / symmetrize2 / reorder / set_pointgroup", "SymWann.__init__/symmetrize/find_irreducible_Rab/average_XX_block/_rotate_XX_L_backwards/get_atom_R_map",
              "sym_wann_2._rotate_matrix/_matrix_to_dict", "SymmetrizerSAWF.from_spacegroup_and_projections/symmetrize_WCC (concrete)", "Projection / Dwann / irrep SpaceGroup (concrete)",
              "Rvectors (k-list transform used for the spectrum checks)"]
 BOUNDS = dict(quick=dict(structures="simple cubic s+p on one site (O_h x TR, 4 WF, 7 R-vectors); CsCl-type cubic cell with s on two different sites (O_h, 2 WF, 7 R-vectors); "
@@ -194,12 +194,103 @@ def case_struct(rec, name, mats, nk, npow):
     rec.explore(body, [])
 
 
+def subgroup_indices(spacegroup, want):
+    """indices of a subgroup of the space group's operations: 'E' = identity only, 'half' = a subgroup of index 2 found by closure from generators"""
+    ops = spacegroup.symmetries
+
+    def key(op):
+        return (tuple(np.asarray(op.rotation).astype(int).ravel()), tuple(np.round(np.asarray(op.translation, float) % 1, 6)), bool(op.time_reversal))
+    keys = [key(o) for o in ops]
+    ident = [i for i, o in enumerate(ops) if np.all(np.asarray(o.rotation) == np.eye(3)) and not o.time_reversal and np.allclose(np.asarray(o.translation, float) % 1, 0)][0]
+    if want == "E":
+        return [ident]
+
+    def mul(i, j):
+        a, b = ops[i], ops[j]
+        rot = np.asarray(a.rotation) @ np.asarray(b.rotation)
+        tr = (np.asarray(a.rotation) @ np.asarray(b.translation, float) + np.asarray(a.translation, float)) % 1
+        k = (tuple(rot.astype(int).ravel()), tuple(np.round(tr % 1, 6) % 1), bool(a.time_reversal) != bool(b.time_reversal))
+        return keys.index(k)
+    # grow subgroups from single generators until one of size n/2 (or the largest proper one) is found
+    best = [ident]
+    n = len(ops)
+    for g1 in range(n):
+        for g2 in range(g1, n):
+            S = {ident, g1, g2}
+            changed = True
+            while changed and len(S) < n:
+                changed = False
+                for a in list(S):
+                    for b in list(S):
+                        c = mul(a, b)
+                        if c not in S:
+                            S.add(c)
+                            changed = True
+            if len(S) < n and len(S) > len(best):
+                best = sorted(S)
+            if len(best) * 2 == n:
+                return best
+    return best
+
+
+def case_subgroup(rec, name, want):
+    """symmetrize2 with use_symmetries_index = a proper subgroup: average over the subgroup (idempotent, Hermitian, spectrum invariant under the subgroup's operations,
+    identity-only subgroup returns the input unchanged)"""
+    setup()
+    st = STRUCT[name]
+    data = sym_data(st, ["Ham"])
+
+    def body(rec):
+        rec.witness = lambda env: dict(test="subgroup", name=name, want=want, data={k: env.arr(v) for k, v in data.items()})
+        s0 = do_sym(build(st, ["Ham"], {k: v.copy() for k, v in data.items()}), st)      # provides the symmetrizer (and the reordering of the Wannier functions)
+        symmetrizer = s0._symmetrizer
+        idx = subgroup_indices(symmetrizer.spacegroup, want)
+        rec.concrete("proper subgroup found", 0 < len(idx) < len(symmetrizer.spacegroup.symmetries), detail=f"{len(idx)} of {len(symmetrizer.spacegroup.symmetries)}")
+        s = build(st, ["Ham"], {k: v.copy() for k, v in data.items()})
+        with contextlib.redirect_stdout(io.StringIO()), warnings.catch_warnings():
+            warnings.simplefilter("ignore")
+            s.symmetrize2(symmetrizer, silent=True, use_symmetries_index=list(idx))
+        iR = s.rvec.iRvec
+        iR1 = [tuple(r) for r in iR.tolist()]
+        H1 = np.asarray(s.get_R_mat("Ham")).copy()
+        if want == "E":
+            iR0 = [tuple(r) for r in st["iR"]]
+            got, wantm = [], []
+            for r in sorted(set(iR0) | set(iR1)):
+                got.append(H1[iR1.index(r)] if r in iR1 else np.zeros_like(H1[0]))
+                wantm.append(np.asarray(data["Ham"])[iR0.index(r)] if r in iR0 else np.zeros_like(H1[0]))
+            rec.close("symmetrising with the identity alone returns the input", sarr(np.array(got, dtype=object)), sarr(np.array(wantm, dtype=object)), 1e-12, bound=1.0,
+                      key="symmetrize2 with a subgroup: result is not the average over the operations used")
+        # idempotence with the same subgroup
+        with contextlib.redirect_stdout(io.StringIO()), warnings.catch_warnings():
+            warnings.simplefilter("ignore")
+            s.symmetrize2(symmetrizer, silent=True, use_symmetries_index=list(idx))
+        iR2 = [tuple(r) for r in s.rvec.iRvec.tolist()]
+        H2 = np.asarray(s.get_R_mat("Ham"))
+        got, wantm = [], []
+        for i2, r in enumerate(iR2):
+            got.append(H2[i2])
+            wantm.append(H1[iR1.index(r)] if r in iR1 else np.zeros_like(H2[i2]))
+        rec.close("symmetrising again with the same subgroup changes nothing", sarr(np.array(got, dtype=object)), sarr(np.array(wantm, dtype=object)), 1e-12, bound=1.0,
+                  key="symmetrize2 with a subgroup: not idempotent (wrong normalisation of the average)")
+        # spectrum invariant under the operations of the subgroup (the point group set by symmetrize2 is the subgroup's)
+        k = KPTS[0]
+        p0 = power_sums(Hk(H1, iR, k), 2)
+        for ig, g in enumerate(s.pointgroup.symmetries):
+            pg = power_sums(Hk(H1, iR, g.transform_reduced_vector(k, s.recip_lattice)), 2)
+            for n_ in range(2):
+                rec.close(f"subgroup: tr H(gk)^{n_ + 1} == tr H(k)^{n_ + 1} (g #{ig})", pg[n_], p0[n_], TOL, bound=1.0, key=f"{name}: spectrum not invariant under the subgroup used for symmetrisation")
+    rec.explore(body, [])
+
+
 def cases(tier, seed):
     q = tier == "quick"
     out = [Case("sc_sp Ham", case_struct, dict(name="sc_sp", mats=["Ham"], nk=1 if q else 2, npow=2 if q else 3), timeout=1500 if q else 3600),
            Case("cscl_ss Ham", case_struct, dict(name="cscl_ss", mats=["Ham"], nk=2, npow=2), timeout=1500),
            Case("tet_spz Ham", case_struct, dict(name="tet_spz", mats=["Ham"], nk=2, npow=2), timeout=1500),
            Case("tet_spz Ham+AA", case_struct, dict(name="tet_spz", mats=["Ham", "AA"], nk=1, npow=1), timeout=1500),
+           Case("cscl_ss Ham subgroup=E (use_symmetries_index)", case_subgroup, dict(name="cscl_ss", want="E"), timeout=1500),
+           Case("tet_spz Ham subgroup of index 2 (use_symmetries_index)", case_subgroup, dict(name="tet_spz", want="half"), timeout=1500),
            Case("diamond_ss Ham (two equivalent sites in one block)", case_struct, dict(name="diamond_ss", mats=["Ham"], nk=2, npow=2), timeout=1500)]
     if not q:
         out += [Case("zb_ss Ham", case_struct, dict(name="zb_ss", mats=["Ham"], nk=2, npow=2), timeout=3600),
@@ -210,6 +301,8 @@ def cases(tier, seed):
 
 def replay(rec):
     w = rec["witness"]
+    if w.get("test") == "subgroup":
+        return replay_subgroup(w)
     st = STRUCT[w["name"]]
     rng = np.random.RandomState(3)
     data = {}
@@ -267,3 +360,39 @@ def replay(rec):
             d = max(d, np.abs(X2[i2] - ref).max())
         errs[f"idempotence {k_}"] = d
     return bool(max(errs.values()) > 1e-7), str({k: float(f"{v:.2e}") for k, v in errs.items()})
+
+
+def replay_subgroup(w):
+    st = STRUCT[w["name"]]
+    rng = np.random.RandomState(3)
+    idx0 = {tuple(r): i for i, r in enumerate(st["iR"])}
+    X = unarr(w["data"]["Ham"]).astype(complex)
+    if np.abs(X).max() == 0:
+        X = rng.uniform(-1, 1, X.shape) + 1j * rng.uniform(-1, 1, X.shape)
+    for i, r in enumerate(st["iR"]):
+        j = idx0[tuple(-np.array(r))]
+        if j == i:
+            X[i] = 0.5 * (X[i] + X[i].conj().T)
+        elif j > i:
+            X[j] = X[i].conj().T
+    s0 = do_sym(build(st, ["Ham"], dict(Ham=X.copy())), st)
+    symmetrizer = s0._symmetrizer
+    idx = subgroup_indices(symmetrizer.spacegroup, w["want"])
+    s = build(st, ["Ham"], dict(Ham=X.copy()))
+    errs = {}
+    with contextlib.redirect_stdout(io.StringIO()), warnings.catch_warnings():
+        warnings.simplefilter("ignore")
+        s.symmetrize2(symmetrizer, silent=True, use_symmetries_index=list(idx))
+        iR1 = [tuple(r) for r in s.rvec.iRvec.tolist()]
+        H1 = s.get_R_mat("Ham").copy()
+        iR = s.rvec.iRvec.copy()
+        if w["want"] == "E":
+            iR0 = [tuple(r) for r in st["iR"]]
+            errs["identity-only"] = max(np.abs((H1[iR1.index(r)] if r in iR1 else 0) - (X[iR0.index(r)] if r in iR0 else 0)).max() for r in set(iR0) | set(iR1))
+        k = KPTS[0]
+        p0 = power_sums(Hk(H1, iR, k), 2)
+        errs["spectrum"] = max(max(abs(a - b) for a, b in zip(power_sums(Hk(H1, iR, g.transform_reduced_vector(k, s.recip_lattice)), 2), p0)) for g in s.pointgroup.symmetries)
+        s.symmetrize2(symmetrizer, silent=True, use_symmetries_index=list(idx))
+    H2 = s.get_R_mat("Ham")
+    errs["idempotence"] = max(np.abs(H2[i2] - (H1[iR1.index(r)] if r in iR1 else 0)).max() for i2, r in enumerate(map(tuple, s.rvec.iRvec.tolist())))
+    return bool(max(errs.values()) > 1e-7), str({k_: float(f"{v:.2e}") for k_, v in errs.items()})
